@@ -5498,7 +5498,9 @@ class State:
             elif self.street is self.streets[-1]:
                 raise ValueError('A card is not shown in final showdown.')
             else:
-                raise AssertionError
+                raise ValueError(
+                    'Non-standard showdown must show all cards.',
+                )
 
         for card, card_status in zip(hole_cards, hole_card_statuses):
             if not card and card_status:
